@@ -163,7 +163,7 @@ func (n *ambassador) callback(tx dag.Transaction, payload []byte) error {
 
 	// Unmarshal the next/new proposed version of the DID Document
 	var nextDIDDocument did.Document
-	if err := json.Unmarshal(payload, &nextDIDDocument); err != nil {
+	if err := resolver.UnmarshalDocument(payload, &nextDIDDocument); err != nil {
 		return fmt.Errorf("unable to unmarshal DID document from network payload: %w", err)
 	}
 
